@@ -185,15 +185,29 @@ Definition entries (rd : reader) (bs : bytes) : res (list read_entry * fin) :=
   Ok (ps, match pe with FinOk => e | _ => pe end).
 
 (* ---- solid expansion for an unencrypted, uncompressed stream (EntryIterator) ----------- *)
-(* reads chunks from the concatenated SDAT payload; UnexpectedEof anywhere ends the iteration
-   silently (entry.rs:251-274); other errors are yielded and the iteration goes on from where
-   the reader stands — modelled up to the first yielded error *)
+(* reads chunks from the concatenated SDAT payload (entry.rs EntryIterator::next, after fix 66ed01cc): the
+   stream ends cleanly only BETWEEN two entries with no byte left (the one-byte probe reads nothing); a short
+   read anywhere else — inside a chunk, or inside an entry — is yielded as UnexpectedEof; every yielded error
+   ends the iteration (fix a1692e54).  Before 66ed01cc every UnexpectedEof was taken for the clean end:
+   inner_item_orig below, kept for the refuted lemma. *)
 Fixpoint inner_item (fuel : nat) (bs : bytes) (acc : list chunk) : res (option (list chunk * bytes)) :=
   match fuel with
   | O => Panic
   | S f =>
     match read_chunk_stream bs with
     | Ok (c, r) => if ty_is c FEND then Ok (Some (acc ++ [c], r)) else inner_item f r (acc ++ [c])
+    | Err UnexpectedEof => match acc, bs with [], [] => Ok None | _, _ => Err UnexpectedEof end
+    | Err k => Err k
+    | Panic => Panic
+    end
+  end.
+(* the iterator as it was before fix 66ed01cc *)
+Fixpoint inner_item_orig (fuel : nat) (bs : bytes) (acc : list chunk) : res (option (list chunk * bytes)) :=
+  match fuel with
+  | O => Panic
+  | S f =>
+    match read_chunk_stream bs with
+    | Ok (c, r) => if ty_is c FEND then Ok (Some (acc ++ [c], r)) else inner_item_orig f r (acc ++ [c])
     | Err UnexpectedEof => Ok None
     | Err k => Err k
     | Panic => Panic
